@@ -141,6 +141,9 @@ def all_combos(metrics, tier):
                 for v in ("none", "r1"):
                     combos.append((m, None, "plot", v, sh))
                     combos.append((m, None, "csv", v, sh))
+            # more than two files: ranking and map legends have their own code for this case
+            combos.append((m, None, "maprank", "none", "five"))
+            combos.append((m, None, "rank", "agg_min", "five"))
             for v in VARIANTS[3:]:
                 combos.append((m, None, "plot", v, "prob2"))
                 combos.append((m, "no", "text", v, "prob2"))
